@@ -96,16 +96,37 @@ func (m *minimiser) minimise(cs []runCase) []runCase {
 					t++
 				}
 			}
-			// 5. drop operations
+			// 5. drop operations: ddmin per task (chunks of halving size)
 			for t := 0; t < len(cur[ri].plan.Tasks); t++ {
-				for o := len(cur[ri].plan.Tasks[t].Ops) - 1; o >= 0; o-- {
-					if len(cur[ri].plan.Tasks[t].Ops) <= 1 && len(cur[ri].plan.Tasks) <= 1 {
+				for chunk := (len(cur[ri].plan.Tasks[t].Ops) + 1) / 2; chunk >= 1; {
+					removed := false
+					for o := 0; o < len(cur[ri].plan.Tasks[t].Ops); {
+						ops := cur[ri].plan.Tasks[t].Ops
+						end := o + chunk
+						if end > len(ops) {
+							end = len(ops)
+						}
+						if end-o >= len(ops) && len(cur[ri].plan.Tasks) <= 1 {
+							break // keep at least one operation
+						}
+						cand := cloneCases(cur)
+						co := cand[ri].plan.Tasks[t].Ops
+						cand[ri].plan.Tasks[t].Ops = append(co[:o:o], co[end:]...)
+						if try(cand) {
+							removed = true
+						} else {
+							o = end
+						}
+					}
+					if chunk == 1 && !removed {
 						break
 					}
-					cand := cloneCases(cur)
-					ops := cand[ri].plan.Tasks[t].Ops
-					cand[ri].plan.Tasks[t].Ops = append(ops[:o:o], ops[o+1:]...)
-					try(cand)
+					if !removed || chunk > len(cur[ri].plan.Tasks[t].Ops) {
+						chunk /= 2
+					}
+					if m.budget <= 0 {
+						break
+					}
 				}
 			}
 			// 6. flags, shared subjects, variants
